@@ -212,7 +212,7 @@ def queue_next_n(E):
     E.prove('queue_next_n:the_application_generator_is_started_exactly_once_and_that_one_is_iterated',
             len(log.of(factory, '__call__')) == 1 and src.attrs['_generator'] is the_generator and iterated == [the_generator]
             and isinstance(src.attrs['_iteration'], SOpaque) and src.attrs['_iteration'].ident == 'iteration')
-    E.prove('queue_next_n:asks_the_generator_for_exactly_the_dequeued_credit', asked[:1] == [n])
+    E.prove('queue_next_n:asks_the_generator_for_exactly_the_dequeued_credit', (I(asked[0]) == I(n)) if asked and is_intlike(asked[0]) else False)
     stop_at = next((i for i, b in enumerate(batch) if b[1]), None)
     want = batch if stop_at is None else batch[:stop_at + 1]
     got = [x for x in q]
